@@ -161,4 +161,59 @@ def run(src, tier, seed):
             res.bad(r, 'print-through-double:%s' % f['name'], fx.loc(f, bad[0]['ln']), '%s prints a rational through double' % f['name'])
         else:
             res.ok(r, '%s: exact' % f['name'])
+    literal_recogniser_rule(fx, res, tier)
     return res
+
+
+def literal_recogniser_rule(fx, res, tier):
+    """isRealString decides which texts reach stringToRational / mpq_set_str.  It is a hand-written automaton; it is evaluated abstractly on every string over
+    {0, 5, ., /, -} up to length 5 (6 in the thorough tier) and must accept exactly  -?(d+(.d+)?|.d+)(/(d+(.d+)?|.d+))?  with a denominator that has a
+    non-zero digit: "1/0" made mpq_canonicalize divide by zero (replays/C18/zero-denominator-literal.smt2)."""
+    import itertools
+    import re
+    from build import AnalysisBroken
+    from boolctor import Interp, Unmodelled, Thrown
+    from prims import must_call
+    r = res.rule('real-literal-recogniser', 'isRealString, evaluated on every string over {0, 5, ., /, -} up to length 5 (thorough: 6), accepts exactly the decimal / fraction literals whose '
+                 'denominator has a non-zero digit; ArithLogic::mkConst(sort, text) converts a real literal only after the recogniser accepted it', floor=1000)
+    f = fx.func('opensmt::isRealString')
+    rx = re.compile(r'^-?(\d+(\.\d+)?|\.\d+)(/(\d+(\.\d+)?|\.\d+))?$')
+    n = 0
+    reported = set()
+    try:
+        for L in range(1, 7 if tier == 'thorough' else 6):
+            for w in itertools.product('05./-', repeat=L):
+                text = ''.join(w)
+                it = Interp(fx, f, '?', {})
+                it.oracle = {'isDigit': lambda i, a, nd: isinstance(a[0], int) and 48 <= a[0] <= 57}
+                out = it.run_env({f['params'][0]['n']: [ord(c) for c in text] + [0]})
+                well_formed = bool(rx.match(text))
+                zero_den = '/' in text and not re.search(r'[1-9]', text.split('/', 1)[1])
+                n += 1
+                if out and zero_den and well_formed and 'zero' not in reported:
+                    reported.add('zero')
+                    res.bad(r, 'zero-denominator-accepted', fx.loc(f), 'isRealString accepts "%s": the text reaches stringToRational and mpq_canonicalize divides by zero (SIGFPE)' % text)
+                elif out and not well_formed and 'ill' not in reported:
+                    reported.add('ill')
+                    res.bad(r, 'ill-formed-literal-accepted', fx.loc(f), 'isRealString accepts "%s", which is not a decimal or fraction literal' % text)
+                elif (not out) and well_formed and not zero_den and 'rej' not in reported:
+                    reported.add('rej')
+                    res.bad(r, 'literal-rejected', fx.loc(f), 'isRealString rejects the literal "%s"' % text)
+                elif not (out and (zero_den or not well_formed)) and not ((not out) and well_formed and not zero_den):
+                    res.ok(r, None) if False else None
+    except Thrown:
+        raise AnalysisBroken('isRealString throws')
+    except Unmodelled as e:
+        raise AnalysisBroken('isRealString is outside the modelled subset: %s' % e)
+    for _ in range(n - len(reported)):
+        res.ok(r, 'strings')
+    mk = fx.func('opensmt::ArithLogic::mkConst', pred=lambda g: len(g['params']) == 2 and 'char' in g['params'][1]['t'])
+    exits, eng = must_call(mk, {'recognised': lambda x: x.get('k') == 'call' and (x.get('f') or '').endswith('isRealString'),
+                                'converted': lambda x: x.get('k') == 'call' and (x.get('f') or '').endswith('stringToRational')})
+    # order: on every path that converts, the recogniser ran (and did not reject) - the rejecting branch throws
+    unguarded = [nd for k, nd, st in exits if k != 'throw' and 'converted' in st and 'recognised' not in st]
+    if unguarded:
+        res.bad(r, 'conversion-without-recogniser', fx.loc(mk), 'ArithLogic::mkConst(sort, text) hands a text to stringToRational without having tested it with isRealString: a zero denominator or an '
+                'ill-formed text reaches mpq_set_str / mpq_canonicalize')
+    else:
+        res.ok(r, 'mkConst(sort, text): stringToRational only after isRealString')
